@@ -204,7 +204,10 @@ def other_mutations(scratch: Path) -> list:
         finally:
             tlc.SPEC_DIR = saved
         got = r.violated or ''
-        out.append((name, inv, got == inv or (got == 'I_Confined' and inv == 'I_NothingOutside'), f'TLC reported: {got or (r.error and r.error[:160]) or "no violation"} ({r.distinct} states)'))
+        # (the key-injectivity ASSUME of TaskValues, evaluated before the state space is explored, may catch a serialiser
+        # mutation before the round-trip invariant does)
+        assumed = inv == 'I_RoundTrip' and bool(r.error) and 'Assumption' in r.error and 'TaskValues' in r.error
+        out.append((name, inv, got == inv or assumed or (got == 'I_Confined' and inv == 'I_NothingOutside'), f'TLC reported: {got or (r.error and r.error[:160]) or "no violation"} ({r.distinct} states)'))
     return out
 
 
